@@ -166,6 +166,14 @@ run_op(int me, int idx, struct op *op)
 			perror("rtsim: chdir");
 			exit(2);
 		}
+		/* never leave the run's own directory (a shrunk plan may have lost the matching descent) */
+		char cwd[4096];
+		if (getcwd(cwd, sizeof(cwd)) == NULL || strncmp(cwd, sim_cfg.root, strlen(sim_cfg.root)) != 0) {
+			if (chdir(sim_cfg.root) != 0) {
+				perror("rtsim: chdir root");
+				exit(2);
+			}
+		}
 	} else if (strcmp(n, "isready") == 0) {
 		sim_log("R %d %d %d", me, idx, ovni_thread_isready());
 	} else {
